@@ -123,6 +123,10 @@ type Gen struct {
 	// goes to the next registrant, and the "ghost" is the party best placed to profit from anything
 	// that remembered the discarded branch: later non-owner attempts are biased towards it.
 	ghosts map[string]map[uint64]int
+	// ghostSigners: actors named as enterprise signers in any parameter-update proposal, whatever
+	// became of it (a proposal may pass the vote and still be discarded as a whole when a later
+	// message of it fails): decisions and whitelist changes are biased towards them as well
+	ghostSigners []int
 }
 
 func (g *Gen) addGhost(kind string, id uint64, actor int) {
@@ -148,11 +152,15 @@ func DefaultKnobs() Knobs {
 		ValFee:    "0.01", StartPO: 1, StartWrk: 1, StartBeacon: 1, GovSecs: 20, Balance: "1000000000000000000"}
 }
 
-var allFlags = []string{"group", "vesting", "extrafee", "nest", "overflow", "longdur", "huge", "denomchange", "minaccepts63", "addr255", "idwrap", "bigfee", "stakebond", "dupsigners", "granter"}
+var allFlags = []string{"upcase", "group", "vesting", "extrafee", "nest", "overflow", "longdur", "huge", "denomchange", "minaccepts63", "addr255", "idwrap", "bigfee", "stakebond", "dupsigners", "granter"}
 
 // flagRates: probability (percent) that a feature flag is on in a run, per property. Flags tied to
 // a known finding stay rare everywhere except in the property that owns the finding.
 func flagRate(prop, flag string) int {
+	if flag == "upcase" {
+		// parties written in the all-upper-case spelling of their bech32 address
+		return map[string]int{"C03": 35, "C13": 30, "C09": 25, "C07": 15}[prop]
+	}
 	if flag == "group" {
 		// x/group proposals executing module messages: only where the oracles know about them
 		return map[string]int{"C06": 40, "C18": 30}[prop]
@@ -586,6 +594,10 @@ func (g *Gen) feeFor(w *World, msgs []MsgSpec) *big.Int {
 // wrap builds the single-message transaction for m, signed by the party m names, with the exact
 // module fee (perturbed when the profile is about fees).
 func (g *Gen) wrap(w *World, m MsgSpec) TxSpec {
+	if g.Flags["upcase"] && m.A >= 0 && g.pct(12) && (strings.HasPrefix(m.T, "ent.") || strings.HasPrefix(m.T, "wrk.") || strings.HasPrefix(m.T, "bcn.") || strings.HasPrefix(m.T, "str.")) && !strings.HasSuffix(m.T, ".params") {
+		m.Up = true
+		w.Fault("input.uppercase_address")
+	}
 	ts := TxSpec{Signer: signerOf(&m), Gas: ampleGas, Msgs: []MsgSpec{m}}
 	g.setFee(w, &ts)
 	return ts
@@ -695,6 +707,10 @@ func (g *Gen) txFaults(w *World, ts *TxSpec) {
 // enterprise
 
 func (g *Gen) entSigner(w *World) int {
+	if len(g.ghostSigners) > 0 && g.pct(15) {
+		w.Fault("auth.ghost_signer")
+		return pick(g.R, g.ghostSigners)
+	}
 	k := &w.T.Knobs
 	if len(k.Ent.Signers) > 0 && g.pct(80) {
 		// pick among the *current* signers as the model knows them
@@ -1028,6 +1044,19 @@ func (g *Gen) paramMsg(w *World) MsgSpec {
 		for i := 0; i < ns; i++ {
 			idx = append(idx, fmt.Sprint(1+i))
 		}
+		if g.pct(30) {
+			// a signer set that does not start at actor 1
+			off := 1 + g.R.Intn(4)
+			idx = idx[:0]
+			for i := 0; i < ns; i++ {
+				idx = append(idx, fmt.Sprint(1+off+i))
+			}
+		}
+		for _, x := range idx {
+			var a int
+			fmt.Sscan(x, &a)
+			g.ghostSigners = append(g.ghostSigners, a)
+		}
 		p := &ParamSpec{EntSigners: "@" + strings.Join(idx, ","), Denom: e.Denom, MinAccepts: uint64(1 + g.R.Intn(ns)), Limit: pick(g.R, []uint64{5, 30, 60, 600, 86400})}
 		if g.Flags["dupsigners"] && g.pct(40) {
 			p.EntSigners = "@1,1," + strings.Join(idx, ",")
@@ -1123,6 +1152,12 @@ func (g *Gen) govTx(w *World) TxSpec {
 		m := g.customMsg(w)
 		m.A = AddrGov
 		inner = append(inner, m)
+	}
+	if g.pct(15) {
+		// a tail message that fails at execution: the proposal passes the vote, x/gov runs its
+		// messages on a branch and must discard all of them
+		inner = append(inner, MsgSpec{T: "bank.send", A: AddrGov, B: g.actor(), Amt: "9" + strings.Repeat("0", 40), Denom: Native, Tag: "failing_tail"})
+		w.Fault("gov.proposal_with_failing_tail")
 	}
 	dep := "1000"
 	if g.pct(10) {
